@@ -124,8 +124,10 @@ func (c *tcpConnectionActor) onReadConn(ctx vivid.ActorContext) (fatal bool, err
 	// 消息长度超过 4MB 则认为无效
 	if msgLen > 4*1024*1024 {
 		ctx.Logger().Warn("invalid message length", log.Int64("length", int64(msgLen)))
-		ctx.TellSelf(c.conn)
-		return false, vivid.ErrorInvalidMessageLength.WithMessage(fmt.Sprintf("length: %d", msgLen))
+		// 字节流已失步：帧体无法被安全跳过，继续读取会把帧体内容当作后续帧的帧头解析（可能投递对端从未发送过的消息），只能关闭连接
+		_ = c.Close()
+		ctx.Kill(ctx.Ref(), false, "invalid message length")
+		return true, vivid.ErrorInvalidMessageLength.WithMessage(fmt.Sprintf("length: %d", msgLen))
 	}
 	msgBuf := make([]byte, msgLen)
 	if _, err := io.ReadFull(reader, msgBuf); err != nil {
